@@ -507,6 +507,22 @@ class Env:
         self.env = env
         self.cache = {}
         self._paths = []
+        if env.get('multiband'):
+            # the shipped multiband example (C+L line amplifiers of type Multiband_amplifier), with the library of the case
+            from pathlib import Path
+            import gnpy
+            from gnpy.tools.json_io import load_json
+            d = Path(gnpy.__file__).parent / 'example-data'
+            ej = load_json(d / 'eqpt_config_multiband.json')
+            ej['SI'][0]['sys_margins'] = env['margin']
+            ej['Transceiver'] = [{'type_variety': 'T', 'frequency': {'min': env['f_min'], 'max': env['f_max']},
+                                  'mode': copy.deepcopy(modes or [DUMMY_MODE])}]
+            extra = {'std_medium_gain_advanced_config.json': load_json(d / 'std_medium_gain_advanced_config.json')}
+            self.eq = _equipment_from_json(ej, extra)
+            net = network_from_json(load_json(d / 'multiband_example_network.json'), self.eq)
+            self.net, _, _ = designed_network(self.eq, net)
+            self.oms = build_oms_list(self.net, self.eq)
+            return
         self.eq = _equipment_from_json(eqpt_json(env, modes or [DUMMY_MODE]), DEFAULT_EXTRA_CONFIG)
         net = network_from_json(topo_json(env), self.eq)
         self.net, _, _ = designed_network(self.eq, net)
@@ -514,8 +530,9 @@ class Env:
 
     def set_modes(self, modes):
         from gnpy.tools.json_io import Transceiver as TrxEq
-        self.eq['Transceiver']['T'] = TrxEq(type_variety='T', frequency={'min': F0, 'max': F0 + (self.env['nch'] + 0.5) * 50e9},
-                                            mode=copy.deepcopy(modes))
+        fr = {'min': self.env['f_min'], 'max': self.env['f_max']} if self.env.get('multiband') else \
+            {'min': F0, 'max': F0 + (self.env['nch'] + 0.5) * 50e9}
+        self.eq['Transceiver']['T'] = TrxEq(type_variety='T', frequency=fr, mode=copy.deepcopy(modes))
 
     def lib(self):
         return self.eq['Transceiver']['T'].mode
@@ -590,7 +607,8 @@ def add_drop_contrib(E, path, freqs):
     tot = [0.0] * len(freqs)
     for k, ro in enumerate(roadms):
         kind = 'add' if k == 0 else 'drop' if k == len(roadms) - 1 else 'express'
-        idx = ord(ro.uid.split()[-1]) - 65
+        name = ro.uid.split()[-1]
+        idx = ord(name) - 65 if len(name) == 1 else len(sites)
         rimp = bool(prof) and idx < len(sites) and sites[idx]
         if rimp and prof[kind] != 'absent':
             pair = prof[kind]
@@ -793,18 +811,46 @@ def gen_decision(rng, big=False):
         spacing = rng.choice([s for s in SPACINGS if s >= modes[mode]['min_spacing']])
         if rng.random() < 0.05:                                                       # malformed: refused at load
             spacing = max(s for s in [25e9] + SPACINGS if s < modes[mode]['min_spacing'])
+    deltas = [rng.choice([-6, -1, -0.02, -0.01, 0, 0.01, 0.02, 0.5, 3, 9]) for _ in modes]
+    tabscale = [[rng.choice([0.9, 0.999, 1.0, 1.0, 1.001, 1.001, 1.2, 1.2, 3, 3, 3, 10, 10, 10, 10, 10, -0.25, -0.5, -0.75, -0.9])
+                 for _ in range(3)] for _ in modes]
+    worst = (not auto) and rng.random() < 0.25
+    if worst:
+        # regime "the worst channel is not the one with the lowest raw GSNR": CD differs from channel to channel (sloped /
+        # tabulated dispersion on every span), the CD table of the requested mode ends INSIDE the spread of the channels
+        # (some get +inf), and the threshold leaves room below the best channels
+        while all(f['kind'] == 'flat' for f in env['fibers']):
+            env['fibers'] = gen_fibers(rng)
+        env['span_types'] = [rng.choice([1, 2]) for _ in env['span_types']]
+        tabscale[mode][0] = rng.choice([-0.25, -0.5, -0.75, -0.9])
+        deltas[mode] = rng.choice([-6, -6, -1, -0.02])
     return {'kind': 'decision', 'env': env, 'modes': modes, 'mode': mode, 'spacing': spacing, 'src': src, 'dst': dst,
             'bidir': rng.random() < 0.4, 'tx_power_dbm': rng.choice([None, None, 0, -3, 3, 10]),
-            'deltas': [rng.choice([-6, -1, -0.02, -0.01, 0, 0.01, 0.02, 0.5, 3, 9]) for _ in modes],
-            'tabscale': [[rng.choice([0.9, 0.999, 1.0, 1.0, 1.001, 1.001, 1.2, 1.2, 3, 3, 3, 10, 10, 10, 10, 10, -0.25, -0.5, -0.75, -0.9])
-                          for _ in range(3)]
-                         for _ in modes],
+            'deltas': deltas, 'tabscale': tabscale, 'force_cd_table': worst,
             'tabseed': rng.randrange(1 << 30), 'nosnr': auto and rng.random() < 0.04,
             'spectrum': gen_spectrum(rng, env) if (not auto and rng.random() < 0.4) else None,
             'sim': {'nli_params': {'method': rng.choice(['ggn_approx', 'ggn_approx', 'ggn_spectrally_separated']),
                                    'dispersion_tolerance': 4, 'phase_shift_tolerance': 0.1,
                                    'computed_number_of_channels': rng.randint(2, 3)},
                     'raman_params': {'flag': False}} if ggn else None}
+
+
+def gen_multiband(rng):
+    """automatic mode selection on the shipped C+L example: every line amplifier of the path is a Multiband_amplifier whose
+    band amplifiers (C, L) have their own designed gain; a first mode with a power offset saturates them, the following
+    ones must be judged on the designed gains again"""
+    src, dst = rng.choice([('Site_A', 'Site_D'), ('Site_D', 'Site_A'), ('Site_A', 'Site_G')])
+    lo = 191.35e12 + rng.choice([0, 1.0e12, 2.0e12])
+    env = {'multiband': True, 'nsites': 4, 'lines': [], 'nch': 0, 'margin': rng.choice([0, 2]), 'add_drop_osnr': 38,
+           'f_min': lo, 'f_max': lo + rng.choice([0.8e12, 1.2e12]), 'roadm_profile': None, 'roadm_sites': []}
+    modes = [{'format': 'm0', 'baud_rate': 64e9, 'OSNR': None, 'bit_rate': 400e9, 'roll_off': 0.15, 'tx_osnr': 40,
+              'min_spacing': 75e9, 'cost': 1, 'equalization_offset_db': rng.choice([3, 4, 6])},
+             {'format': 'm1', 'baud_rate': rng.choice([32e9, 44e9]), 'OSNR': None, 'bit_rate': 100e9, 'roll_off': 0.15,
+              'tx_osnr': rng.choice([36, 40]), 'min_spacing': 50e9, 'cost': 1, 'equalization_offset_db': 0}]
+    return {'kind': 'decision', 'env': env, 'modes': modes, 'mode': None, 'spacing': rng.choice([75e9, 100e9]), 'src': src,
+            'dst': dst, 'bidir': False, 'tx_power_dbm': None, 'deltas': [9, rng.choice([-1, 0.5, -0.02, 0.02])],
+            'tabscale': [[10, 10, 10], [10, 10, 10]], 'force_cd_table': False, 'tabseed': rng.randrange(1 << 30),
+            'nosnr': False, 'spectrum': None, 'sim': None}
 
 
 def complete_modes(E, case, path, req_probe, spectrum=None, tx_list=None):
@@ -833,7 +879,8 @@ def complete_modes(E, case, path, req_probe, spectrum=None, tx_list=None):
         for j, key in enumerate(('cd', 'pmd', 'pdl')):
             top = max(fr[key])
             sc = case['tabscale'][k][j]
-            if rng.random() < 0.3 or top <= 0:
+            absent = rng.random() < 0.3
+            if (absent and not (case.get('force_cd_table') and j == 0 and k == case['mode'])) or top <= 0:
                 tabs.append([])
                 continue
             if sc < 0:
@@ -1434,6 +1481,7 @@ def run(ctx):
         cases += [gen_upd(rng) for _ in range(ctx.scale(120, 2000))]
         cases += [gen_pen(rng) for _ in range(ctx.scale(120, 2000))]
         cases += [gen_decision(rng) for _ in range(ctx.scale(200, 2500))]
+        cases += [gen_multiband(rng) for _ in range(ctx.scale(3, 12))]
     terms, meta = [], []
     amp_terms, amp_meta = [], []
     dec = [c for c in cases if c['kind'] == 'decision']
@@ -1474,6 +1522,10 @@ def run(ctx):
             ctx.count('decision_bidir' if c['bidir'] else 'decision_unidir')
             if c.get('sim'):
                 ctx.count('decision_under_' + c['sim']['nli_params']['method'])
+            if c['env'].get('multiband'):
+                ctx.count('decision_on_multiband_line')
+            if c.get('force_cd_table'):
+                ctx.count('decision_worst_channel_regime')
             if obs.get('tx_list'):
                 ctx.count('decision_with_initial_spectrum')
                 if len(set(obs['tx_list'])) > 1:
